@@ -782,11 +782,31 @@ def check_errors(ctx, fail):
         bad.append(([-1], {}, "node id -1"))
         bad.append(([0], {"keep_unary": True, "keep_unary_in_individuals": True},
                     "keep_unary together with keep_unary_in_individuals"))
+    # option sets for the rejected call: the defaults and "filter nothing" (after which a later
+    # call would silently work on whatever the rejected one left behind)
+    nofilter = {"filter_nodes": False, "filter_populations": False, "filter_individuals": False, "filter_sites": False}
+    bad += [(s_, dict(o_, **nofilter), w_ + " (no filtering)") for s_, o_, w_ in list(bad)[:3]]
+    good = [u for u in range(N) if u % 2 == 0]
     for samples, opts, what in bad:
         tc = ctx.tc.copy()
         try:
             tc.simplify(samples, record_provenance=False, **opts)
         except (tskit.LibraryError, ValueError, OverflowError):
+            # the object is still the user's tables: a later valid call on it must answer for THEM
+            # (a rejected call that empties or reorders them makes every later answer wrong)
+            try:
+                nm2 = tc.simplify(good, record_provenance=False).tolist()
+                tc1, nm1 = run_simplify(ctx, good, {})
+                if tc.has_index():
+                    tc.drop_index()
+                if tc1.has_index():
+                    tc1.drop_index()
+                if nm2 != nm1 or not tc.equals(tc1, ignore_provenance=True):
+                    fail("errors:later_call_differs", f"after the rejected simplify(samples={samples}, {opts}) [{what}] "
+                         f"simplify(samples={good}) on the same object gives node map {nm2}, a fresh copy gives {nm1}")
+            except Exception as e:  # noqa
+                fail("errors:later_call_raised", f"after the rejected simplify(samples={samples}, {opts}) [{what}] "
+                     f"simplify(samples={good}) on the same object raised {e!r}")
             continue
         except Exception as e:  # noqa
             fail("errors:wrong_exception", f"{what}: raised {e!r}")
